@@ -69,56 +69,52 @@ var serveCatDesc = map[string]string{
 	"exit":     "Core.IsRunning is consulted between handler and response write and its false outcome forces Connection: close",
 }
 
-func condCalls(info *types.Info, cond ast.Expr, pred func(*types.Func) bool) (found bool, polarity int) {
-	// polarity: +1 the call appears positively (cond true ⇒ call true), -1 negated, 0 unclear
-	var walk func(e ast.Expr, pol int)
-	walk = func(e ast.Expr, pol int) {
+// condCalls looks for a call satisfying pred inside cond and reports what each outcome of
+// cond implies for the call's boolean result: +1 the call returned true, -1 false, 0 unknown.
+func condCalls(info *types.Info, cond ast.Expr, pred func(*types.Func) bool) (found bool, whenTrue, whenFalse int) {
+	comb := func(a, b int) int {
+		if a != 0 {
+			return a
+		}
+		return b
+	}
+	var walk func(e ast.Expr) (t, f int)
+	walk = func(e ast.Expr) (int, int) {
 		switch x := unparen(e).(type) {
 		case *ast.UnaryExpr:
 			if x.Op == token.NOT {
-				walk(x.X, -pol)
-				return
+				t, f := walk(x.X)
+				return f, t
 			}
 		case *ast.BinaryExpr:
 			if x.Op == token.LAND {
-				// cond true ⇒ both true; polarity preserved only for positive context
-				if pol > 0 {
-					walk(x.X, pol)
-					walk(x.Y, pol)
-				} else {
-					walk(x.X, 0)
-					walk(x.Y, 0)
-				}
-				return
+				ta, _ := walk(x.X)
+				tb, _ := walk(x.Y)
+				return comb(ta, tb), 0
 			}
 			if x.Op == token.LOR {
-				if pol < 0 {
-					walk(x.X, pol)
-					walk(x.Y, pol)
-				} else {
-					walk(x.X, 0)
-					walk(x.Y, 0)
-				}
-				return
+				_, fa := walk(x.X)
+				_, fb := walk(x.Y)
+				return 0, comb(fa, fb)
 			}
 		case *ast.CallExpr:
 			if f := calleeOf(info, x); f != nil && pred(f) {
 				found = true
-				polarity = pol
+				return 1, -1
 			}
-			return
+			return 0, 0
 		}
 		ast.Inspect(e, func(n ast.Node) bool {
 			if c, ok := n.(*ast.CallExpr); ok {
 				if f := calleeOf(info, c); f != nil && pred(f) {
 					found = true
-					polarity = 0
 				}
 			}
 			return true
 		})
+		return 0, 0
 	}
-	walk(cond, 1)
+	whenTrue, whenFalse = walk(cond)
 	return
 }
 
@@ -358,30 +354,29 @@ func serveLoop(e *Env, prop string) {
 					}
 					return
 				}
-				if found, pol := condCalls(info, cond, func(f *types.Func) bool { return esp.Is(f, pkgSuite, "Core", "IsRunning") }); found && s.phase == "handled" {
-					if pol == 0 {
-						viol(c, "exit", cond.Pos(), "running-cond-form", "condition mentioning Core.IsRunning has a form the rule does not model; undecided")
-						return
+				pick := func(t, f int) int {
+					if val {
+						return t
 					}
-					running := val == (pol > 0)
+					return f
+				}
+				if found, t, f := condCalls(info, cond, func(f *types.Func) bool { return esp.Is(f, pkgSuite, "Core", "IsRunning") }); found && s.phase == "handled" {
+					// unknown (0) is treated as "may be shutting down" on this edge
+					running := pick(t, f) > 0
 					upd(c, func(s *srv) { s.runChk = true; s.notRun = s.notRun || !running })
 				}
-				if found, pol := condCalls(info, cond, func(f *types.Func) bool { return esp.Is(f, pkgApp, "RequestContext", "IsHead") }); found && s.phase == "handled" {
+				if found, t, f := condCalls(info, cond, func(f *types.Func) bool { return esp.Is(f, pkgApp, "RequestContext", "IsHead") }); found && s.phase == "handled" {
 					upd(c, func(s *srv) {
 						s.headChk = true
-						if val && pol > 0 {
-							s.headTrue = true
-						}
-						if pol == 0 || (pol < 0 && !val) {
-							// unclear form: be conservative, the request may be HEAD on this edge
+						if pick(t, f) >= 0 { // true or unknown: the request may be HEAD on this edge
 							s.headTrue = true
 						}
 					})
 				}
-				if found, pol := condCalls(info, cond, func(f *types.Func) bool { return esp.Is(f, pkgProto, "Request", "IsBodyStream") }); found && s.phase == "flushed" {
+				if found, t, f := condCalls(info, cond, func(f *types.Func) bool { return esp.Is(f, pkgProto, "Request", "IsBodyStream") }); found && s.phase == "flushed" {
 					upd(c, func(s *srv) {
 						s.bsChk = true
-						if pol == 0 || val == (pol > 0) {
+						if pick(t, f) >= 0 { // the request may have a body stream on this edge
 							s.relNeed = true
 						}
 					})
